@@ -48,6 +48,12 @@ N-d ndarray inputs (2-D and 3-D) come in C, Fortran, transposed / rolled-axes, s
 layouts, all arrays alike or each differently, and are judged element by element (recurrence per point + the same call on
 C-contiguous float64 copies).  Equilibrium-mapped results are additionally evaluated BETWEEN the psi_n nodes: non-negative,
 fractions <= 1 and summing to one, and identical to interpolators1d_<family> evaluated at psi_n(r, z) (off-node:* keys).
+Free variables of the three public profile functions come in ascending, descending, unsorted order and with repeated
+coordinates (all profiles reordered alike; functions are sampled at the caller's coordinates), judged point by point and
+against the same call on ndarrays (inputs:free-variable-order:*).  Container class (6 % of cases): 3..6 consecutive calls of
+the helpers that return dictionaries of functions (abundance_axisymmetric_mapper, interpolators1d/2d_*, equilibrium_map3d_*)
+for different elements / rate tables; each result has exactly the keys 0..Z, is judged at its nodes, and after all later
+calls is judged again: same keys, same values, no dictionary or function object shared between calls (container:* keys).
 Mechanism keys: a mismatch on a point solved through scipy's bounded TRF iteration (OptimizeResult.status in {-1,0,1,2},
 seen through a recording wrapper of the module's lsq_linear reference) is keyed solver:*, a result equal to the exact
 no-donor solution while a donor was supplied is keyed tcx-donor-ignored:*, anything else by sub-clause and entry point.
@@ -88,7 +94,8 @@ THOROUGH = dict(cases=26000, workers=16, timecap=600)
 REQUIRED = {"fractions": 5000, "balance": 5000, "sum_range": 500, "densities": 1500, "neutrality": 150, "cross_entry": 1000,
             "interp_nodes": 2000, "eqmap_points": 1000, "contract_evals": 1000, "donor_sensitive": 80,
             "sequence_steps": 100, "sequence_repeat": 20, "mixed_donor_points": 40, "dict_order_pairs": 15,
-            "repeated_point_pairs": 30, "input_kind_pairs": 60, "eqmap_offnode": 300}
+            "repeated_point_pairs": 30, "input_kind_pairs": 60, "eqmap_offnode": 300, "fv_order_points": 80,
+            "container_steps": 40, "container_rejudged": 40}
 
 EPS = 2.220446049250313e-16
 CF = 200.0
@@ -106,6 +113,13 @@ SEQ_ENTRIES = ["fractional_abundance", "from_elementdensity", "match_plasma_neut
 SEQ_CHANGES = ["donor_charge", "donor_charge", "donor_element", "receiver_element", "plasma", "donor_density",
                "atomic_data", "entry", "donor_on_off"]
 SEQ_WEIGHT = 0.12
+CONT_WEIGHT = 0.06
+CONT_ENTRIES = ["abundance_axisymmetric_mapper", "abundance_axisymmetric_mapper", "abundance_axisymmetric_mapper",
+                "interpolators1d_fractional", "interpolators1d_from_elementdensity", "interpolators1d_match_plasma_neutrality",
+                "interpolators2d_fractional", "interpolators2d_from_elementdensity", "interpolators2d_match_plasma_neutrality",
+                "equilibrium_map3d_fractional", "equilibrium_map3d_from_elementdensity", "equilibrium_map3d_match_plasma_neutrality"]
+CONT_EQ_KNOTS = [0.0, 0.25, 0.5, 0.75, 1.0, 1.1]
+CONT_EQ_PTS = [[2.15, 0.1], [1.8, -0.25], [2.05, 0.45], [2.3, -0.1]]
 
 ALLREPS = ["scalar", "npscalar", "array1d", "array2d", "array3d", "func1d", "func1d_scalar", "func2d", "mixed0d", "mixed1d", "mixed2d"]
 N_EQ_OFF = 5
@@ -211,6 +225,8 @@ def _gen_input_kinds(rng, rep, shape, single, iseq, fam, ne, te, nd, nel):
 def gen_case(rng, tier, entry=None, rep=None):
     if entry is None and rng.random() < SEQ_WEIGHT:
         return _gen_sequence(rng, tier)
+    if entry is None and rng.random() < CONT_WEIGHT / (1.0 - SEQ_WEIGHT):
+        return _gen_containers(rng, tier)
     names = list(ENTRIES)
     w = np.array([ENTRIES[n]["w"] for n in names], dtype=float)
     if entry is None:
@@ -277,7 +293,7 @@ def gen_case(rng, tier, entry=None, rep=None):
             nd[zero] = 0.0
     # element density / species
     band = 2.0 if (entry.startswith("interpolators") or iseq) else 6.0
-    nel = ne * float(_logu(rng, -6, -1)) * _logu(rng, 0, band, n) / 10 ** band
+    nel = ne * float(_logu(rng, -6, 0)) * _logu(rng, 0, band, n) / 10 ** band
     species = []
     over = False
     if fam == "match":
@@ -335,7 +351,48 @@ def gen_case(rng, tier, entry=None, rep=None):
                       "phi": float(rng.uniform(0, 2 * np.pi)),
                       "off": [[float(2.0 + 0.45 * r * math.cos(t)), float(0.75 * r * math.sin(t))]
                               for r, t in zip(rng.uniform(0.1, 0.9, N_EQ_OFF), rng.uniform(0, 2 * np.pi, N_EQ_OFF))]}
+    if entry in ("fractional_abundance", "from_elementdensity", "match_plasma_neutrality") and single is None and len(shape) <= 2:
+        _apply_order(case, rng)
     return case
+
+
+def _apply_order(case, rng):
+    """free variable (and every profile with it) in ascending / descending / unsorted order, possibly with repeated
+    coordinates: legal for the three public profile functions, which sample functions at the caller's coordinates."""
+    shape = list(case["shape"])
+    orders, labels = [], []
+    for n in shape:
+        k = _pick(rng, ["ascending", "descending", "unsorted", "repeated"], [4, 2.5, 2, 1.5])
+        idx = np.arange(n)
+        if k == "descending":
+            idx = idx[::-1]
+        elif k == "unsorted":
+            idx = rng.permutation(n)
+            if np.all(np.diff(idx) > 0):
+                idx = idx[::-1]
+        elif k == "repeated":
+            idx = rng.permutation(np.concatenate([idx, rng.integers(0, n, size=int(rng.integers(1, 3)))]))
+        orders.append(idx)
+        labels.append(k if n > 1 else "ascending")
+    case["fv_order"] = "/".join(labels)
+    if all(l == "ascending" for l in labels):
+        return
+
+    def take(flat, lead=()):
+        a = np.asarray(flat, dtype=float).reshape(list(lead) + shape)
+        for ax, idx in enumerate(orders):
+            a = np.take(a, idx, axis=len(lead) + ax)
+        return a
+
+    for q in ("ne", "te", "nd", "nel"):
+        case[q] = take(case[q]).ravel().tolist()
+    for sp in case["species"]:
+        d = take(sp["dens"], lead=(sp["nz"],))
+        sp["dens"] = d.reshape(sp["nz"], -1).tolist()
+    case["x"] = [case["x"][i] for i in orders[0]]
+    if len(shape) == 2:
+        case["y"] = [case["y"][i] for i in orders[1]]
+    case["shape"] = [len(o) for o in orders]
 
 
 def _gen_sequence(rng, tier):
@@ -412,6 +469,31 @@ def _gen_sequence(rng, tier):
         steps.append(snap(change, rng.random() < 0.25))
     steps.append(dict(steps[0], change="repeat-first"))
     return dict(entry="call_sequence", rep="array1d", x=x, sp_frac=sp_frac.tolist(), sp_order=_gen_order(rng, nz), steps=steps)
+
+
+def _gen_containers(rng, tier):
+    """container class: 3..6 consecutive calls of the helpers that RETURN dictionaries of functions (mapper, interpolators1d/2d_*,
+    equilibrium_map3d_*) for different elements / rate tables; every returned container is kept and judged again at the end."""
+    x1 = np.cumsum(np.concatenate([[rng.uniform(0.1, 2.0)], _logu(rng, -1.5, 0, int(rng.integers(1, 4)))])).tolist()
+    x2 = np.cumsum(np.concatenate([[rng.uniform(0.2, 2.0)], _logu(rng, -1.5, 0, int(rng.integers(1, 3)))])).tolist()
+    y2 = np.cumsum(np.concatenate([[rng.uniform(-1.0, 1.0)], _logu(rng, -1.5, 0, int(rng.integers(1, 3)))])).tolist()
+    steps = []
+    entry = CONT_ENTRIES[int(rng.integers(len(CONT_ENTRIES)))]
+    for k in range(int(rng.integers(3, 7))):
+        if k and rng.random() < 0.5:
+            entry = CONT_ENTRIES[int(rng.integers(len(CONT_ENTRIES)))]     # else: the same helper again, for another element
+        n = len(CONT_EQ_KNOTS) if entry.startswith("equilibrium") else (len(x1) if "1d" in entry else len(x2) * len(y2))
+        ne_ref = float(_logu(rng, 17.5, 20.5))
+        ne = ne_ref * _logu(rng, -0.7, 0.7, n)
+        donor = None
+        if rng.random() < 0.5:
+            donor = {"el": SEQ_DONOR_ELEMENTS[int(rng.integers(len(SEQ_DONOR_ELEMENTS)))], "charge": int(rng.integers(0, 3))}
+        steps.append(dict(entry=entry, family=["fractional", "from", "match"][int(rng.integers(3))] if entry.startswith("abundance") else None,
+                          Z=int(rng.integers(1, 19)), par=[int(rng.integers(1 << 31)), float([0.5, 1.0, 2.0][int(rng.integers(3))]), -16.0],
+                          donor=donor, ne=ne.tolist(), te=_logu(rng, 0.0, 4.0, n).tolist(),
+                          nd=(ne * _logu(rng, -3, 0.5, n)).tolist() if donor else np.zeros(n).tolist(),
+                          nel=(ne * float(_logu(rng, -4, -1)) * rng.uniform(0.5, 2.0, n)).tolist(), q=rng.uniform(0.05, 0.8, n).tolist()))
+    return dict(entry="container_sequence", rep="array", x1=x1, x2=x2, y2=y2, steps=steps)
 
 
 def fixed_cases(tier):
@@ -491,19 +573,23 @@ def _equilibrium():
 # =====================================================================================================================
 
 def _make_func(flav, vals, xs, ys):
-    """Function1D / Function2D returning vals at the knots."""
+    """Function1D / Function2D returning vals at the knots (knots may be given in any order and repeated: interpolators are
+    built on the sorted unique coordinates; repeated coordinates carry identical values by construction)."""
     vals = np.ascontiguousarray(vals, dtype=float)
     xs = np.asarray(xs, dtype=float)
     if ys is None:
         if flav == "py":
             v = vals.copy()
             return _S["P1"](lambda x, xs=xs, v=v: float(v[int(np.argmin(np.abs(xs - x)))]))
-        return _S["I1"](xs, vals, "linear" if flav == "lin" else "cubic", "none", 0)
+        ux, ix = np.unique(xs, return_index=True)
+        return _S["I1"](ux, np.ascontiguousarray(vals[ix]), "linear" if flav == "lin" else "cubic", "none", 0)
     ys = np.asarray(ys, dtype=float)
     if flav == "py":
         v = vals.copy()
         return _S["P2"](lambda x, y, xs=xs, ys=ys, v=v: float(v[int(np.argmin(np.abs(xs - x))), int(np.argmin(np.abs(ys - y)))]))
-    return _S["I2"](xs, ys, vals, "linear" if flav == "lin" else "cubic", "none", 0, 0)
+    ux, ix = np.unique(xs, return_index=True)
+    uy, iy = np.unique(ys, return_index=True)
+    return _S["I2"](ux, uy, np.ascontiguousarray(vals[np.ix_(ix, iy)]), "linear" if flav == "lin" else "cubic", "none", 0, 0)
 
 
 def _eval_func(f, xs, ys, single):
@@ -750,6 +836,8 @@ def _stack(res, Z):
 def run_case(case, ctx):
     if case["entry"] == "call_sequence":
         return _run_sequence(case, ctx)
+    if case["entry"] == "container_sequence":
+        return _run_containers(case, ctx)
     ib, C = _S["ib"], _S["C"]
     entry, rep, Z = case["entry"], case["rep"], case["Z"]
     fam = ENTRIES[entry]["fam"]
@@ -868,6 +956,14 @@ def run_case(case, ctx):
         parts.append("%s:%s-free-variable" % (fdim, fv_label))
     if any(d != "float64" for d in arr_dts) or not parts:
         parts.append("ndarray:" + "+".join(arr_dts))
+    fv_order = case.get("fv_order", "ascending")
+    order_alt = fv_pass is not None and any(l != "ascending" for l in fv_order.split("/"))
+    if order_alt:
+        parts = ["free-variable-order:%s" % fv_order] + ([q_ for q_ in parts if q_ not in ("ndarray:float64", "ndarray:")])
+        alt_inputs = True
+        ctx.cls("fv-order:" + ("functions" if fv_used else "arrays-only"))
+        if fv_used:
+            ctx.mon("fv_order_points", int(ne.size))
     in_label = "+".join(parts)
 
     # ---- oracle -----------------------------------------------------------------------------------------------------
@@ -1433,6 +1529,113 @@ def _run_sequence(case, ctx):
                          "different result", max_rel=float(np.max(np.abs(got - first_got) / (np.abs(first_got) + 1e-300))),
                          calls=[(q["entry"], q["change"]) for q in case["steps"]])
         history.append((k, stp))
+
+
+# =====================================================================================================================
+# containers returned by the helpers: independent of each other and unchanged by later calls
+# =====================================================================================================================
+
+def _run_containers(case, ctx):
+    ib, C = _S["ib"], _S["C"]
+    ctx.cls("entry:container_sequence")
+    kept = []
+    for k, stp in enumerate(case["steps"]):
+        entry, Z = stp["entry"], stp["Z"]
+        ctx.cls("container:" + entry)
+        el = getattr(_S["em"], ELEMENTS[Z - 1])
+        par = tuple(stp["par"])
+        ad = M.make_atomic_data(par)
+        d = stp["donor"]
+        iseq = entry.startswith("equilibrium")
+        mapper = entry.startswith("abundance")
+        if iseq:
+            shape, fv = [len(CONT_EQ_KNOTS)], np.array(CONT_EQ_KNOTS)
+        elif "1d" in entry:
+            shape, fv = [len(case["x1"])], np.array(case["x1"])
+        else:
+            shape, fv = [len(case["x2"]), len(case["y2"])], (np.array(case["x2"]), np.array(case["y2"]))
+        ne, te, nd, nel, q = (np.array(stp[a], dtype=float) for a in ("ne", "te", "nd", "nel", "q"))
+        g = lambda a: a.reshape(shape).copy()
+        dargs = (getattr(_S["em"], d["el"]), g(nd), d["charge"]) if d else (None, None, 0)
+        dkey = (dargs[0].name, d["charge"]) if d else None
+        species = [{0: g(0.1 * q * ne), 1: g(q * ne)}]
+        base = ("interpolators2d_" + {"fractional": "fractional", "from": "from_elementdensity", "match": "match_plasma_neutrality"}[stp["family"]]) if mapper else entry
+        fam = ENTRIES[base]["fam"]
+        args = [g(ne), g(te)] if fam == "fractional" else ([g(nel), g(ne), g(te)] if fam == "from" else [species, g(ne), g(te)])
+        try:
+            if iseq:
+                res = getattr(ib, entry)(ad, el, _equilibrium(), fv, *args, *dargs)
+            else:
+                res = getattr(ib, base)(ad, el, fv, *args, *dargs)
+                if mapper:
+                    src = res
+                    res = ib.abundance_axisymmetric_mapper(src)
+                    if res is src:
+                        ctx.viol("container:input-dict-returned:abundance_axisymmetric_mapper", "the mapper returns its input dictionary", step=k)
+        except (C.SolverNonTermination, C.ContractViolation) as e:
+            ctx.viol("contract-or-solver:%s" % entry, "call failed: %s" % e, step=k)
+            return
+        del C.STATE["lsq"][:max(0, len(C.STATE["lsq"]) - 64)]
+        # evaluation points
+        if iseq:
+            eq = _equilibrium()
+            pts = [(r_, 0.0, z_) for r_, z_ in CONT_EQ_PTS if eq.inside_lcfs(r_, z_) == 1.0 and eq.psi_normalised(r_, z_) < 0.97]
+        elif len(shape) == 1:
+            pts = [(x,) for x in case["x1"]]
+        elif mapper:
+            pts = [(x, 0.0, y) for x in case["x2"] for y in case["y2"]]
+        else:
+            pts = [(x, y) for x in case["x2"] for y in case["y2"]]
+
+        def evaluate(r_, pts=pts, Z=Z):      # bound per step
+            return np.array([[r_[z](*p_) for p_ in pts] for z in sorted(r_.keys()) if z <= Z])
+
+        ctx.mon("container_steps")
+        keys = sorted(res.keys())
+        ok_keys = ctx.check(keys == list(range(Z + 1)), "container:unexpected-keys:%s" % entry,
+                            "the returned dictionary does not have exactly the charge states 0..Z as keys", monitor="container_keys",
+                            keys=[int(v) if isinstance(v, (int, np.integer)) else repr(v) for v in keys], Z=Z, step=k,
+                            calls=[(q_["entry"], q_["Z"]) for q_ in case["steps"][:k + 1]])
+        vals = evaluate(res) if ok_keys else None
+        if vals is not None:
+            if iseq:      # judged against the 1-D interpolators of the same family at psi_n(r, z)
+                r1 = getattr(ib, entry.replace("equilibrium_map3d", "interpolators1d"))(M.make_atomic_data(par), el, fv, *args, *dargs)
+                want = np.array([[r1[z](eq.psi_normalised(p_[0], p_[2])) for p_ in pts] for z in range(Z + 1)])
+                ctx.close(vals, want, "container:equilibrium-map-differs-from-interpolators1d:%s" % entry,
+                          "mapped values differ from the 1-D interpolators of the same family", rtol=1e-9,
+                          atol=1e-10 * float(np.max(np.abs(want))) + 1e-300, monitor="container_values")
+            else:
+                for i in range(vals.shape[1]):
+                    O = _oracle_point(el.name, Z, par, float(ne[i]), float(te[i]), dkey, float(nd[i]))
+                    gcol = vals[:, i]
+                    f = gcol if fam == "fractional" else (gcol / nel[i] if fam == "from" else (gcol / gcol.sum() if gcol.sum() > 0 else gcol))
+                    _judge_point(ctx, {"entry": entry, "Z": Z}, fam, f, O, None, None, SLACK_COEF, fam != "match", dict(step=k, point=i))
+            if fam == "fractional":
+                ctx.close(vals.sum(axis=0), np.ones(vals.shape[1]), "container:fractions-do-not-sum-to-one:%s" % entry,
+                          "fractions taken from the returned container do not sum to one", atol=1e-6, monitor="container_values")
+        kept.append(dict(k=k, entry=entry, Z=Z, res=res, vals=vals, evaluate=evaluate, keys=keys,
+                         ids=set(id(v) for v in res.values())))
+    # ---- every container again, after all later calls ---------------------------------------------------------------
+    calls = [(q_["entry"], q_["Z"]) for q_ in case["steps"]]
+    for a, A in enumerate(kept):
+        ctx.mon("container_rejudged")
+        now_keys = sorted(A["res"].keys())
+        if now_keys != A["keys"]:
+            ctx.viol("container:earlier-result-changed-by-later-call:%s" % A["entry"],
+                     "the dictionary returned by call %d has other keys after the later calls" % A["k"],
+                     before=[int(v) for v in A["keys"]], after=[int(v) for v in now_keys], calls=calls)
+        elif A["vals"] is not None:
+            again = A["evaluate"](A["res"])
+            if again.shape != A["vals"].shape or not np.allclose(again, A["vals"], rtol=1e-12, atol=0.0, equal_nan=True):
+                ctx.viol("container:earlier-result-changed-by-later-call:%s" % A["entry"],
+                         "the functions in the dictionary returned by call %d evaluate differently after the later calls" % A["k"], calls=calls)
+        for B in kept[a + 1:]:
+            if A["res"] is B["res"]:
+                ctx.viol("container:same-dict-returned-by-two-calls:%s" % B["entry"],
+                         "calls %d and %d returned the very same dictionary object" % (A["k"], B["k"]), calls=calls)
+            elif A["ids"] & B["ids"]:
+                ctx.viol("container:results-share-function-objects:%s" % B["entry"],
+                         "calls %d and %d returned dictionaries sharing function objects" % (A["k"], B["k"]), calls=calls)
 
 
 # =====================================================================================================================
